@@ -402,6 +402,20 @@ func (e *erasureCodingPartStore) openPartReaders(ctx context.Context, tx databas
 		// heal path would write the shards of an empty part and return an empty stream.
 		return nil, nil, partstore.ErrPartNotFound
 	}
+	// Fewer readable shards than data shards cannot yield a single stripe. Fail
+	// before anything is streamed or healed: with no readable shard at all the
+	// read would otherwise return an empty part and overwrite every shard store
+	// with the shards of an empty part.
+	readable := 0
+	for _, rc := range readers {
+		if rc != nil {
+			readable++
+		}
+	}
+	if readable < e.dataShards {
+		closePartReaders(readers)
+		return nil, nil, fmt.Errorf("erasure coded part %s: %d of %d shards readable, %d needed", partId.String(), readable, e.totalShards, e.dataShards)
+	}
 	return readers, healShards, nil
 }
 
